@@ -15,6 +15,9 @@
 //	c.TriggerCheckpoint()                   // ticks the job's "checkpointing" ticker (frozen clock)
 //	c.HoldAcks(true); c.Parked(); c.Release(a); c.Drop(a)   // gate / permute / lose checkpoint acknowledgements
 //	c.AwaitPublished(id, timeout)           // the job checkpoint file of id has been written to the store
+//	c.HoldPublication(); c.ReleasePublication()   // slow storage: job checkpoint files are written only after the release
+//	Options.Hooks.OnDeploy(gen, opID, first)      // inside the job's Deploy call to an operator (between the job's checkpoint
+//	                                              // read and the start of the source splitter)
 //	c.Kill(w) / c.KillAll()                 // crash a worker: adapters from/to it return errors, its goroutines are halted
 //	c.ExpireHeartbeats()                    // job clock +10s and live workers re-register: the job purges the dead ones
 //	c.Deregister(w)                         // alternative to ExpireHeartbeats: explicit deregistration (graceful stop path)
@@ -28,7 +31,9 @@
 //
 // The reference handler (used unless Options.Handler is set) keeps, per subject key, ONE state entry per applied
 // record id (namespace "r", entry key = 4-byte id, value = count byte ++ 4-byte order index), so loss (missing entry)
-// and double application (count 2) are both visible in state; every invocation is logged with the state it was given.
+// and double application (count 2) are both visible in state; plus ONE summary entry per key (entry key "s", 4-byte
+// number of applications) that is REWRITTEN on every application, so a stale version of a rewritten entry is visible
+// too (Invocation.Sum vs len(Given)); every invocation is logged with the state it was given.
 // A Record with Probe=true is not applied: its invocation only records the state of its key (used to read final state
 // through the handler API).
 //
@@ -335,6 +340,7 @@ type Invocation struct {
 	Probe  bool    `json:"probe,omitempty"`
 	First  bool    `json:"first"` // first event of this key in its batch: Given is exactly the KeyState of the request
 	Given  []Entry `json:"given"` // state the application of this record started from (sorted by id)
+	Sum    int64   `json:"sum"`   // the key's summary entry (rewritten on EVERY application: number of applications so far) as given; 0 if absent
 }
 type Emission struct {
 	Gen      int64
@@ -348,6 +354,10 @@ type Assignment struct {
 	Worker int
 	Split  int
 	Cursor int
+}
+type DeployStart struct {
+	Seq uint64
+	Gen int64
 }
 type Restore struct {
 	Seq           uint64 // position in the global observation order (comparable with Published.Seq)
@@ -374,17 +384,18 @@ type Published struct {
 	Operators int
 }
 type Log struct {
-	Seq         uint64 // number of observations so far
-	Invocations []Invocation
-	Emissions   []Emission
-	Assignments []Assignment
-	Restores    []Restore
-	Acks        []AckObs
-	Started     []uint64 // checkpoint ids for which StartCheckpoint reached a runner adapter (deduplicated)
-	Published   []Published
-	Deploys     []string // "gen:opid:jobseq" per operator deploy
-	Tickers     []int64  // generation at each registration of the job's "checkpointing" ticker
-	Errors      []string // errors/panics seen at adapter boundaries and on the job's ErrChan
+	Seq          uint64 // number of observations so far
+	Invocations  []Invocation
+	Emissions    []Emission
+	Assignments  []Assignment
+	Restores     []Restore
+	Acks         []AckObs
+	Started      []uint64 // checkpoint ids for which StartCheckpoint reached a runner adapter (deduplicated)
+	Published    []Published
+	Deploys      []string      // "gen:opid:jobseq" per operator deploy
+	Tickers      []int64       // generation at each registration of the job's "checkpointing" ticker
+	DeployStarts []DeployStart // first Deploy call of every generation (the job has chosen its checkpoint by then)
+	Errors       []string      // errors/panics seen at adapter boundaries and on the job's ErrChan
 }
 
 type logBox struct {
@@ -472,6 +483,9 @@ func (c *hclock) registered(label string) int {
 type Hooks struct {
 	// BeforeApply runs synchronously in the operator's event loop before the reference handler applies a record.
 	BeforeApply func(worker int, rec Record)
+	// OnDeploy runs in the job's Deploy call to an operator, before the operator's HandleDeploy (first = this is the first
+	// Deploy of a new generation: the job has read the checkpoint it deploys from, and has not yet started the splitter).
+	OnDeploy func(gen int64, opID string, first bool)
 }
 
 type Options struct {
@@ -536,6 +550,7 @@ type Cluster struct {
 	gen      atomic.Int64
 	genOpen  bool // false: the next Deploy starts a new generation
 	hold     bool
+	pubGate  chan struct{} // non-nil: job checkpoint files are not written until it is closed (HoldPublication)
 	parked   []*Ack
 	started  map[string]bool
 	closed   bool
@@ -689,6 +704,19 @@ func (s *recordingStore) Write(path string, data io.Reader) (string, error) {
 				}
 			}
 			s.c.log.add(func(l *Log) { p := *pub; p.Seq = l.Seq; l.Published = append(l.Published, p) })
+			// slow storage: the file is not written before ReleasePublication (the job keeps running meanwhile)
+			s.c.mu.Lock()
+			gate := s.c.pubGate
+			s.c.mu.Unlock()
+			if gate != nil {
+				<-gate
+				s.c.mu.Lock()
+				alive = s.c.job != nil && s.c.jobSeq == s.seq
+				s.c.mu.Unlock()
+				if !alive {
+					return "", errNoJob
+				}
+			}
 		}
 	}
 	uri, err := s.StorageLocation.Write(path, strings.NewReader(string(b)))
@@ -953,6 +981,24 @@ func (c *Cluster) TriggerCheckpoint() error {
 	return err
 }
 
+// HoldPublication makes the job's checkpoint file writes block (after the "about to publish" observation) until
+// ReleasePublication: a fully acknowledged checkpoint whose asynchronous publication is still in flight.
+func (c *Cluster) HoldPublication() {
+	c.mu.Lock()
+	if c.pubGate == nil {
+		c.pubGate = make(chan struct{})
+	}
+	c.mu.Unlock()
+}
+func (c *Cluster) ReleasePublication() {
+	c.mu.Lock()
+	if c.pubGate != nil {
+		close(c.pubGate)
+		c.pubGate = nil
+	}
+	c.mu.Unlock()
+}
+
 func (c *Cluster) HoldAcks(on bool) {
 	c.mu.Lock()
 	c.hold = on
@@ -1094,7 +1140,7 @@ func (c *Cluster) Log() Log {
 			Invocations: append([]Invocation{}, l.Invocations...), Emissions: append([]Emission{}, l.Emissions...),
 			Assignments: append([]Assignment{}, l.Assignments...), Restores: append([]Restore{}, l.Restores...),
 			Acks: append([]AckObs{}, l.Acks...), Started: append([]uint64{}, l.Started...),
-			Published: append([]Published{}, l.Published...), Deploys: append([]string{}, l.Deploys...), Tickers: append([]int64{}, l.Tickers...), Errors: append([]string{}, l.Errors...),
+			Published: append([]Published{}, l.Published...), Deploys: append([]string{}, l.Deploys...), Tickers: append([]int64{}, l.Tickers...), DeployStarts: append([]DeployStart{}, l.DeployStarts...), Errors: append([]string{}, l.Errors...),
 		}
 	})
 	return out
@@ -1243,7 +1289,9 @@ func (a *opAdapter) HandleEventBatch(ctx context.Context, batch []*workerpb.Even
 			var err error
 			for try := 0; try < 2000; try++ { // the RPC client retries Unavailable (operator still loading)
 				err = w.op.HandleEvent(ctx, a.senderID, e)
-				if connect.CodeOf(err) != connect.CodeUnavailable || w.isDead() {
+				// only the operator's own "not ready" is retried: an Unavailable that comes back from further down (the
+				// operator's acknowledgement to a dead job) must not make the event be delivered twice
+				if err == nil || connect.CodeOf(err) != connect.CodeUnavailable || !strings.Contains(err.Error(), "operator not ready") || w.isDead() {
 					break
 				}
 				select {
@@ -1262,13 +1310,20 @@ func (a *opAdapter) Deploy(ctx context.Context, req *workerpb.DeployOperatorRequ
 	return a.call("Operator.HandleDeploy", func(w *worker) error {
 		c := a.c
 		c.mu.Lock()
-		if !c.genOpen {
+		first := !c.genOpen
+		if first {
 			c.gen.Add(1)
 			c.genOpen = true
 		}
 		g := c.gen.Load()
 		js := c.jobSeq
 		c.mu.Unlock()
+		if first {
+			c.log.add(func(l *Log) { l.DeployStarts = append(l.DeployStarts, DeployStart{Seq: l.Seq, Gen: g}) })
+		}
+		if hk := c.opts.Hooks.OnDeploy; hk != nil {
+			hk(g, w.opID, first)
+		}
 		err := w.op.HandleDeploy(ctx, req, &embedded.RecordingSink{})
 		if err == nil {
 			w.gen.Store(g)
@@ -1368,6 +1423,8 @@ func (h *refHandler) KeyEventBatch(ctx context.Context, events [][]byte) ([][]*h
 	return out, nil
 }
 
+const sumID = 0xFFFFFFF0 // pseudo id under which the summary entry travels inside the handler (never logged in Given)
+
 func decodeEntries(ks *handlerpb.KeyState) map[uint32]Entry {
 	m := map[uint32]Entry{}
 	for _, ns := range ks.GetStateEntryNamespaces() {
@@ -1375,6 +1432,10 @@ func decodeEntries(ks *handlerpb.KeyState) map[uint32]Entry {
 			continue
 		}
 		for _, e := range ns.Entries {
+			if len(e.Key) == 1 && e.Key[0] == 's' && len(e.Value) == 4 {
+				m[sumID] = Entry{ID: sumID, Count: binary.BigEndian.Uint32(e.Value)}
+				continue
+			}
 			if len(e.Key) != 4 || len(e.Value) != 5 {
 				m[0xFFFFFFFF] = Entry{ID: 0xFFFFFFFF, Count: 99} // malformed entry: visible as a foreign record
 				continue
@@ -1429,9 +1490,18 @@ func (h *refHandler) ProcessEventBatch(ctx context.Context, req *handlerpb.Proce
 			st = map[uint32]Entry{0xFFFFFFFE: {ID: 0xFFFFFFFE, Count: 98}} // no KeyState supplied for the key: visible
 			states[k] = st
 		}
-		inv := Invocation{Gen: h.w.gen.Load(), Worker: h.w.idx, Key: append([]byte{}, ke.Key...), Rec: r.ID, Probe: r.Probe, First: !touched[k], Given: sortedEntries(st)}
+		sum := st[sumID]
+		delete(st, sumID)
+		inv := Invocation{Gen: h.w.gen.Load(), Worker: h.w.idx, Key: append([]byte{}, ke.Key...), Rec: r.ID, Probe: r.Probe, First: !touched[k], Given: sortedEntries(st), Sum: int64(sum.Count)}
 		touched[k] = true
 		if !r.Probe {
+			sum = Entry{ID: sumID, Count: sum.Count + 1}
+			sval := make([]byte, 4)
+			binary.BigEndian.PutUint32(sval, sum.Count)
+			if _, seen := muts[k]; !seen {
+				order = append(order, k)
+			}
+			muts[k] = append(muts[k], &handlerpb.StateMutation{Mutation: &handlerpb.StateMutation_Put{Put: &handlerpb.PutMutation{Key: []byte{'s'}, Value: sval}}})
 			e := st[r.ID]
 			if e.Count == 0 {
 				e = Entry{ID: r.ID, Ord: uint32(len(st))}
@@ -1447,6 +1517,9 @@ func (h *refHandler) ProcessEventBatch(ctx context.Context, req *handlerpb.Proce
 				order = append(order, k)
 			}
 			muts[k] = append(muts[k], &handlerpb.StateMutation{Mutation: &handlerpb.StateMutation_Put{Put: &handlerpb.PutMutation{Key: key, Value: val}}})
+		}
+		if sum.Count > 0 {
+			st[sumID] = sum
 		}
 		h.c.log.add(func(l *Log) { l.Invocations = append(l.Invocations, inv) })
 	}
